@@ -117,7 +117,7 @@ def make_case(tier, seed, index):
     d1 = rnd.choice([DEFAULT_LATENCY, tau / 4])
     d2 = rnd.choice([d1, tau / 2, tau - EPS, tau + EPS, 1.5 * tau])
     cls = rnd.choice(["minus", "plus", "flip", "other", "garbage", "lone_refrag", "lone_refrag", "lone_ok", "late_rem",
-                      "late_rem", "two_req", "two_req"])
+                      "late_rem", "two_req", "two_req", "collide", "late_head", "late_head"])
     rem = L - s
     cmd = _cmd(fr, size, rnd)
     if cls == "minus":
@@ -138,6 +138,25 @@ def make_case(tier, seed, index):
     elif cls == "garbage":
         faults = [{"k": "frag_then", "s": s, "d1": d1, "d2": d2,
                    "what": {"raw": bytes(rnd.getrandbits(8) for _ in range(rem)).hex()}}]
+    elif cls == "collide":
+        # a corrupted remainder of the SAME length that keeps the checksum valid: CRC-16 is linear (XOR of 03 40 01
+        # anywhere leaves it unchanged), the AA55 checksum is a plain sum (swapping two bytes leaves it unchanged)
+        pay_lo, pay_hi = max(s, (5 if fr == "rtu" else 9 if fr == "tcp" else 7)), L - (0 if fr == "tcp" else 2)
+        if pay_hi - pay_lo >= 3:
+            i = rnd.randint(pay_lo, pay_hi - 3) - s
+            ops = [["xor", i, "034001"]] if fr != "aa55" else [["swap", i, i + 1 + rnd.randrange(2)]]
+            faults = [{"k": "frag_then", "s": s, "d1": d1, "d2": max(d1, min(d2, tau - EPS)), "what": {"mut": ops}}]
+        else:
+            cls = "flip"
+            faults = [{"k": "frag_then", "s": s, "d1": d1, "d2": d2, "what": {"flip": rnd.randrange(0, rem * 8)}}]
+    elif cls == "late_head":
+        # the FIRST piece of the answer to transmission 1 is late: it arrives when the retransmission is already
+        # waiting for its own answer, which then comes in two pieces, in time, the first as long as what the stale
+        # head is missing
+        s = rnd.randint(HDR[fr], max(HDR[fr], L - HDR[fr]))
+        lat = DEFAULT_LATENCY
+        faults = [{"k": "lonefrag", "s": s, "d1": tau + 2 * lat},
+                  {"k": "frag", "s": max(HDR[fr], min(L - 1, L - s)), "d1": 4 * lat, "d2": rnd.choice([8 * lat, tau / 2])}]
     elif cls == "late_rem":
         # the remainder arrives after the timeout, i.e. while a retransmission is already waiting for ITS answer,
         # which is lost, prompt or late itself
@@ -266,6 +285,13 @@ def run_case(case):
                             break
                     if violations:
                         break
+        if case["timing"] == "late_head" and status == "ok":
+            # transmission 2 is answered in two pieces in time: success, no third transmission, exactly its bytes
+            if outcome != "result" or ntx != 2 or rec["raw"] != net.answers[1]:
+                violations.append(viol(f"C07:stale-late-head:{fr}",
+                                       f"a late first fragment of the answer to transmission 1 arrived while transmission "
+                                       f"2 was waiting; the answer to transmission 2 (two pieces, in time) was not "
+                                       f"returned: outcome {outcome}, {ntx} transmissions"))
         if status == "ok" and outcome == "result":
             raw = rec["raw"]
             whole = {a for a in answers}
@@ -284,7 +310,11 @@ def run_case(case):
                     if raw == cat or raw in pieces or any(raw == b"".join(pieces[:n]) for n in range(1, len(pieces) + 1)):
                         ok = True
                         break
-            if not ok:
+            if not ok and case["timing"] == "collide":
+                violations.append(viol(f"C07:checksum-collision:{fr}",
+                                       f"first fragment + a corrupted remainder of equal length whose corruption keeps "
+                                       f"the checksum valid was accepted: {raw.hex()} (real answer {answers[0].hex()})"))
+            elif not ok:
                 violations.append(viol(f"C07:mixed:{fr}",
                                        f"{case['timing']}: success with {raw.hex()} which is not the whole answer of "
                                        f"one transmission (answers: {[a.hex() for a in answers]})"))
